@@ -9,8 +9,9 @@ and proved equal to what the hand-written model computes by the bridge theorems 
 
 A function is normalised (docstrings, logging / progress-bar statements, annotations dropped), every site is replaced by a
 hole, and the `ast.dump` of the result must equal the committed skeleton; otherwise the translator refuses ("skeleton differs")
-and the tie of the property is broken.  Site expressions are translated by `to_lean`; anything outside the supported subset is
-a translator error (tie broken), never guessed."""
+and the tie of the property is broken.  Site expressions are translated by `ToLean` (Int / Bool / Str / Rat / list-of-str
+expressions; string methods with Python semantics = the `Py.*` functions of Model/PyInt.lean; expressions that can raise become
+`Option`-valued definitions); anything outside the supported subset is a translator error (tie broken), never guessed."""
 from __future__ import annotations
 
 import ast
@@ -159,13 +160,17 @@ def skeleton_text(norm, site_paths: dict):
     import copy
     n = copy.deepcopy(norm)
     exprs = {}
-    # replace deeper paths first so that indices of shallower ones stay valid (sites never nest)
-    for name, path in sorted(site_paths.items(), key=lambda kv: -len(kv[1])):
-        path = tuple((f, i) for f, i in path)
-        tgt = follow(n, path)
+    # all expressions are taken from the unmodified tree first (a site may lie inside another one, e.g. the condition of a
+    # translated comprehension); then deeper paths are replaced first so that indices of shallower ones stay valid
+    for name, path in site_paths.items():
+        tgt = follow(n, tuple((f, i) for f, i in path))
         if tgt is None:
             raise TranslateError(f'site {name}: path not present')
-        exprs[name] = tgt
+        exprs[name] = copy.deepcopy(tgt)
+    for name, path in sorted(site_paths.items(), key=lambda kv: -len(kv[1])):
+        path = tuple((f, i) for f, i in path)
+        if follow(n, path) is None:
+            raise TranslateError(f'site {name}: path not present')
         replace_at(n, path, ast.Name(id=f'HOLE_{name}', ctx=ast.Load()))
     return dump(n), exprs
 
@@ -176,15 +181,61 @@ def unp(e):
     return ast.unparse(e)
 
 
+LEAN_KEYWORDS = {'fun', 'let', 'if', 'then', 'else', 'do', 'at', 'by', 'in', 'end', 'from', 'have', 'show', 'match', 'with', 'open',
+                 'def', 'theorem', 'example', 'where', 'deriving', 'instance', 'structure', 'class', 'namespace', 'section', 'import',
+                 'return', 'for', 'unless', 'try', 'catch', 'finally', 'mut', 'break', 'continue', 'true', 'false', 'some', 'none',
+                 'Type', 'Prop', 'Sort', 'forall', 'exists', 'private', 'protected', 'partial', 'unsafe', 'macro', 'syntax', 'nomatch',
+                 'nofun', 'then', 'using', 'calc', 'suffices', 'obtain', 'variable', 'universe', 'abbrev', 'inductive', 'mutual', 'set_option'}
+
+
+def names_in(text):
+    try:
+        return {n.id for n in ast.walk(ast.parse(text, mode='eval')) if isinstance(n, ast.Name)}
+    except SyntaxError:
+        return set()
+
+
 class ToLean:
-    """Python int / bool / str expression -> Lean term. `params`: unparsed sub-expression -> (lean name, type)."""
+    """Python int / bool / str / list-of-str expression -> Lean term. `params`: unparsed sub-expression -> (lean name, type).
+
+    Types: 'Int', 'Bool', 'Str' (`String`), 'Rat', 'StrList' (`List String`), 'StrIter' (a generator expression over strings:
+    accepted only where Python accepts any iterable – `sep.join(…)`, `list(…)`).
+    Partial operations (`xs[k]` – IndexError; `s.split(sep)` with a non-literal `sep` – ValueError for '') are never totalised:
+    each one becomes a binding `(<option>).bind fun v =>` in front of the body (`self.binds`) and the definition gets the type
+    `Option T`, `none` standing for the exception.  Because `none` does not say WHICH exception or in which order, a partial
+    operation is refused where Python might not evaluate it (right operands of and / or, chained comparisons, branches of a
+    conditional expression, the per-element parts of a comprehension)."""
 
     def __init__(self, params):
         self.params = params
         self.used = []
+        self.binds = []          # [(lean variable, lean term of type Option _)]
+        self.guarded = 0         # > 0: inside a sub-expression that Python evaluates conditionally / repeatedly
+        self.bound = []          # comprehension variables in scope (lean names)
+
+    def fresh(self, base='v'):
+        taken = {n for n, _ in self.params.values()} | set(self.bound) | {v for v, _ in self.binds}
+        k = 1
+        while f'{base}{k}' in taken:
+            k += 1
+        return f'{base}{k}'
+
+    def bind(self, opt, e):
+        if self.guarded:
+            raise TranslateError(f'partial operation in a conditionally evaluated position: {unp(e)}')
+        v = self.fresh()
+        self.binds.append((v, opt))
+        return v
+
+    def guard(self, f, *a):
+        self.guarded += 1
+        try:
+            return f(*a)
+        finally:
+            self.guarded -= 1
 
     def truthy(self, e):
-        """Python truth value of an expression: bool as is, str -> non-empty, int -> non-zero"""
+        """Python truth value of an expression: bool as is, str -> non-empty, int -> non-zero, list -> non-empty"""
         a, ta = self.tr(e)
         if ta == 'Bool':
             return a
@@ -192,14 +243,103 @@ class ToLean:
             return f'(decide ({a} ≠ ""))'
         if ta == 'Int':
             return f'(decide ({a} ≠ (0 : Int)))'
+        if ta == 'StrList':
+            return f'(!(List.isEmpty {a}))'
         raise TranslateError(f'truth value of a {ta}: {unp(e)}')
 
+    @staticmethod
+    def lit_str(e):
+        return e.value if isinstance(e, ast.Constant) and isinstance(e.value, str) else None
+
+    @staticmethod
+    def lit_nat(e):
+        if isinstance(e, ast.Constant) and isinstance(e.value, int) and not isinstance(e.value, bool) and e.value >= 0:
+            return e.value
+        return None
+
+    def str_method(self, e):
+        """`recv.method(args)` on a str receiver (None when `e` is not such a call; TranslateError when it is one outside the subset)"""
+        f = e.func
+        m = f.attr
+        if m not in ('strip', 'lstrip', 'rstrip', 'split', 'join', 'replace'):
+            return None
+        if e.keywords:
+            raise TranslateError(f'keyword arguments in {unp(e)}')
+        a, ta = self.tr(f.value)
+        if ta != 'Str':
+            raise TranslateError(f'.{m}() on a {ta}: {unp(e)}')
+        if m in ('strip', 'lstrip', 'rstrip'):
+            if not e.args:
+                return f'(Py.{m} {a})', 'Str'                      # whitespace: Py.isSpace = Py_UNICODE_ISSPACE
+            chars = self.lit_str(e.args[0]) if len(e.args) == 1 else None
+            if chars is None:
+                raise TranslateError(f'.{m}() needs no argument or one literal set of characters: {unp(e)}')
+            return f'(Py.{m}Chars {a} {lean_str(chars)})', 'Str'
+        if m == 'split':
+            if len(e.args) != 1:
+                raise TranslateError(f'.split() without separator / with maxsplit: {unp(e)}')
+            lit = self.lit_str(e.args[0])
+            if lit is not None:
+                if lit == '':
+                    raise TranslateError(f'empty separator: {unp(e)}')
+                return f'(Py.split {a} {lean_str(lit)})', 'StrList'
+            b, tb = self.tr(e.args[0])
+            if tb != 'Str':
+                raise TranslateError(f'separator of type {tb}: {unp(e)}')
+            return self.bind(f'(Py.split? {a} {b})', e), 'StrList'   # ValueError for sep == '' = none
+        if m == 'join':
+            if len(e.args) != 1:
+                raise TranslateError(f'call {unp(e)}')
+            b, tb = self.tr(e.args[0])
+            if tb not in ('StrList', 'StrIter'):
+                raise TranslateError(f'.join() of a {tb}: {unp(e)}')
+            return f'(Py.join {a} {b})', 'Str'
+        if m == 'replace':
+            old = self.lit_str(e.args[0]) if len(e.args) == 2 else None
+            if not old:
+                raise TranslateError(f'.replace() needs a literal non-empty first argument and no count: {unp(e)}')
+            b, tb = self.tr(e.args[1])
+            if tb != 'Str':
+                raise TranslateError(f'.replace() by a {tb}: {unp(e)}')
+            return f'(Py.replace {a} {lean_str(old)} {b})', 'Str'
+        return None
+
+    def comprehension(self, e):
+        """`[x for x in xs if c]` / `(x for x in xs if c)` over a list of strings -> List.filter"""
+        if len(e.generators) != 1:
+            raise TranslateError(f'nested comprehension {unp(e)}')
+        g = e.generators[0]
+        if g.is_async or not isinstance(g.target, ast.Name):
+            raise TranslateError(f'comprehension target in {unp(e)}')
+        v = g.target.id
+        if not (isinstance(e.elt, ast.Name) and e.elt.id == v):
+            raise TranslateError(f'comprehension element is not the loop variable: {unp(e)}')
+        it, tit = self.tr(g.iter)                                     # evaluated once, outside the loop
+        if tit != 'StrList':
+            raise TranslateError(f'comprehension over a {tit}: {unp(e)}')
+        taken = {n for n, _ in self.params.values()} | set(self.bound) | {b for b, _ in self.binds}
+        lv = v if (v.isascii() and v.isidentifier() and v not in LEAN_KEYWORDS and v not in taken and not v.startswith('_')) else self.fresh('x')
+        saved = self.params
+        # the loop variable shadows every parameter that mentions it
+        self.params = {k: val for k, val in saved.items() if v not in names_in(k)}
+        self.params[v] = (lv, 'Str')
+        self.bound.append(lv)
+        try:
+            conds = [self.guard(self.truthy, c) for c in g.ifs]
+        finally:
+            self.params = saved
+            self.bound.pop()
+        ty = 'StrList' if isinstance(e, ast.ListComp) else 'StrIter'
+        if not conds:
+            return it, ty
+        return f'(List.filter (fun {lv} => {" && ".join(conds)}) {it})', ty
+
     def tr(self, e):
-        """returns (lean text, type in {'Int','Bool','Str','Rat'})"""
+        """returns (lean text, type in {'Int','Bool','Str','Rat','StrList','StrIter'})"""
         key = unp(e)
         if key in self.params:
             name, ty = self.params[key]
-            if name not in self.used:
+            if name not in self.used and name not in self.bound:
                 self.used.append(name)
             return name, ty
         if isinstance(e, ast.Constant):
@@ -261,19 +401,19 @@ class ToLean:
             raise TranslateError(f'operator in {unp(e)}')
         if isinstance(e, ast.BoolOp):
             # only the truth value of an and/or is translated (sites are conditions), not Python's operand-returning semantics
-            parts = [self.truthy(v) for v in e.values]
+            parts = [self.truthy(e.values[0])] + [self.guard(self.truthy, v) for v in e.values[1:]]
             j = ' && ' if isinstance(e.op, ast.And) else ' || '
             return '(' + j.join(parts) + ')', 'Bool'
         if isinstance(e, ast.Compare):
             terms = [e.left] + list(e.comparators)
             outs = []
-            for l, op, r in zip(terms, e.ops, terms[1:]):
-                outs.append(self.cmp(l, op, r))
+            for i, (l, op, r) in enumerate(zip(terms, e.ops, terms[1:])):
+                outs.append(self.cmp(l, op, r) if i == 0 else self.guard(self.cmp, l, op, r))
             return ('(' + ' && '.join(outs) + ')' if len(outs) > 1 else outs[0]), 'Bool'
         if isinstance(e, ast.IfExp):
             c = self.truthy(e.test)
-            a, ta = self.tr(e.body)
-            b, tb = self.tr(e.orelse)
+            a, ta = self.guard(self.tr, e.body)
+            b, tb = self.guard(self.tr, e.orelse)
             if ta != tb:
                 raise TranslateError(f'conditional {unp(e)}')
             return f'(if {c} then {a} else {b})', ta
@@ -321,6 +461,12 @@ class ToLean:
                     a, ta = self.tr(e.args[0])
                     if ta == 'Str':
                         return f'(({a}.length : Nat) : Int)', 'Int'
+                    if ta == 'StrList':
+                        return f'((List.length {a} : Nat) : Int)', 'Int'
+                if f == 'list' and len(e.args) == 1:
+                    a, ta = self.tr(e.args[0])
+                    if ta in ('StrList', 'StrIter'):
+                        return a, 'StrList'
             if isinstance(e.func, ast.Attribute) and not e.args and not e.keywords and e.func.attr == 'bit_length':
                 a, ta = self.tr(e.func.value)
                 if ta == 'Int':
@@ -330,7 +476,36 @@ class ToLean:
                 b, tb = self.tr(e.args[0])
                 if ta == tb == 'Str':
                     return f'(Py.startsWith {a} {b})', 'Bool'
+            if isinstance(e.func, ast.Attribute):
+                r = self.str_method(e)
+                if r is not None:
+                    return r
             raise TranslateError(f'call {unp(e)}')
+        if isinstance(e, ast.Subscript):
+            a, ta = self.tr(e.value)
+            sl = e.slice
+            if isinstance(sl, ast.Slice):
+                k = 0 if sl.lower is None else self.lit_nat(sl.lower)
+                if k is None or sl.upper is not None or sl.step is not None:
+                    raise TranslateError(f'slice other than [k:] with a literal k >= 0: {unp(e)}')
+                if ta == 'Str':
+                    return f'(Py.dropStr {a} {k})', 'Str'
+                if ta == 'StrList':
+                    return f'(List.drop {k} {a})', 'StrList'
+                raise TranslateError(f'slice of a {ta}: {unp(e)}')
+            k = self.lit_nat(sl)
+            if k is None:
+                raise TranslateError(f'index other than a literal k >= 0: {unp(e)}')
+            if ta == 'StrList':
+                return self.bind(f'({a}[{k}]?)', e), 'Str'           # IndexError = none
+            raise TranslateError(f'indexing a {ta}: {unp(e)}')
+        if isinstance(e, (ast.ListComp, ast.GeneratorExp)):
+            return self.comprehension(e)
+        if isinstance(e, ast.List):
+            items = [self.tr(x) for x in e.elts]
+            if all(t == 'Str' for _, t in items):
+                return '[' + ', '.join(x for x, _ in items) + ']', 'StrList'
+            raise TranslateError(f'list display with non-str elements: {unp(e)}')
         raise TranslateError(f'unsupported expression {unp(e)}')
 
     def cmp(self, l, op, r):
@@ -345,6 +520,8 @@ class ToLean:
             b, tb = self.tr(r)
             if ta == tb == 'Str':
                 return f'({neg}(Py.contains {b} {a}))'          # substring test: needle `a` in haystack `b`
+            if ta == 'Str' and tb == 'StrList':
+                return f'({neg}(List.elem {a} {b}))'
             raise TranslateError(f'membership {unp(l)} in {unp(r)}')
         a, ta = self.tr(l)
         b, tb = self.tr(r)
@@ -356,7 +533,9 @@ class ToLean:
             else:
                 raise TranslateError(f'comparison of {ta} with {tb}: {unp(l)} vs {unp(r)}')
         sym = {ast.Lt: '<', ast.LtE: '≤', ast.Gt: '>', ast.GtE: '≥', ast.Eq: '=', ast.NotEq: '≠'}.get(type(op))
-        if sym is None or (ta in ('Bool', 'Str') and sym not in ('=', '≠')):
+        if ta == 'StrIter':
+            raise TranslateError(f'comparison of generator objects: {unp(l)} ? {unp(r)}')
+        if sym is None or (ta in ('Bool', 'Str', 'StrList') and sym not in ('=', '≠')):
             raise TranslateError(f'comparison operator in {unp(l)} ? {unp(r)}')
         return f'(decide ({a} {sym} {b}))'
 
@@ -373,6 +552,8 @@ def lean_str(s: str) -> str:
             out.append('\\n')
         elif ch == '\t':
             out.append('\\t')
+        elif ch == '\r':
+            out.append('\\r')
         elif o < 32 or o == 127:
             out.append('\\x%02x' % o)
         else:
@@ -380,7 +561,7 @@ def lean_str(s: str) -> str:
     return '"' + ''.join(out) + '"'
 
 
-LEAN_TY = {'Int': 'Int', 'Bool': 'Bool', 'Str': 'String', 'Rat': 'Rat'}
+LEAN_TY = {'Int': 'Int', 'Bool': 'Bool', 'Str': 'String', 'Rat': 'Rat', 'StrList': 'List String'}
 
 
 def site_def(name, expr, spec):
@@ -392,13 +573,21 @@ def site_def(name, expr, spec):
         body, ty = t.truthy(expr), 'Bool'
     if spec.get('type') and spec['type'] != ty:
         raise TranslateError(f'site {name}: expression has type {ty}, declared {spec["type"]}')
+    if ty not in LEAN_TY:
+        raise TranslateError(f'site {name}: a {ty} is not a value the tie can state ({unp(expr)})')
+    lty = LEAN_TY[ty]
+    if t.binds:
+        # partial operations: `none` = the exception Python raises (IndexError / ValueError); never totalised
+        body = ''.join(f'{o}.bind fun {v} =>\n  ' for v, o in t.binds) + f'some {body}'
+        lty = f'Option ({lty})' if ' ' in lty else f'Option {lty}'
     # parameter list in the declared order (stable signature even if a rewrite stops using one)
     plist = []
     for k, (pn, pt) in params.items():
         if pn not in [x for x, _ in plist]:
             plist.append((pn, pt))
     sig = ' '.join(f'({pn} : {LEAN_TY[pt]})' for pn, pt in plist)
-    return f'/-- `{unp(expr)}` -/\ndef {name} {sig} : {LEAN_TY[ty]} :=\n  {body}\n'.replace('  :', ' :')
+    doc = unp(expr).replace('-/', '- /')
+    return f'/-- `{doc}` -/\ndef {name}{" " + sig if sig else ""} : {lty} :=\n  {body}\n'
 
 
 # ------------------------------------------------------------------------------------------------ per property
